@@ -61,6 +61,7 @@ class Inter:
         self._summary = {}
         self._okpaths = {}
         self._feas_depth = 0
+        self._ft_depth = 0
 
     # ---------------------------------------------------------------- paths
     def paths(self, fn):
@@ -99,9 +100,9 @@ class Inter:
             return v
         nk = tuple(self.inline(x, depth) for x in k)
         if nk != k:
-            v2 = sym.subst(v, dict(zip(k, nk))) if False else self._rebuild(t, p, nk)
+            v2 = self._rebuild(t, p, nk)
         else:
-            v2 = v
+            v2 = self._field_through(v) if t == "field" else v
         if tag(v2) == "call" and depth > 0:
             fn = self.world.by_pretty.get(payload(v2)[0])
             if fn is not None and is_integer_fn(fn.pretty):
@@ -120,7 +121,8 @@ class Inter:
 
     def _rebuild(self, t, p, nk):
         if t == "field":
-            return sym.field(nk[0], p[0])
+            r = sym.field(nk[0], p[0])
+            return self._field_through(r)
         if t == "as":
             return sym.downcast(nk[0], p[0])
         if t == "unwrap":
@@ -200,6 +202,44 @@ class Inter:
 
     def ok_paths_at(self, fn, mapping):
         return [p for p in self.ok_paths(fn) if self.feasible(p, mapping)]
+
+    def _field_through(self, f):
+        """field(unwrap(call g(..)), name) where g has several success paths that all return the same
+        value for that field: resolve to that value"""
+        if tag(f) != "field":
+            return f
+        base = kids(f)[0]
+        b = base
+        while tag(b) in ("unwrap", "ok"):
+            b = kids(b)[0]
+        if tag(b) != "call":
+            return f
+        fn = self.world.by_pretty.get(payload(b)[0])
+        if fn is None or is_integer_fn(fn.pretty) or self._ft_depth > 3:
+            return f
+        self._ft_depth += 1
+        try:
+            m = self.param_map(fn, kids(b))
+            try:
+                oks = self.ok_paths_at(fn, m)
+            except P.TooManyPaths:
+                return f
+            if len(oks) < 2:
+                return f
+            vals = set()
+            for p in oks:
+                if p.exit != "return":
+                    return f
+                r = sym.field(sym.unwrap(sym.subst(p.ret, m)), payload(f)[0])
+                vals.add(self.inline(r, 3))
+                if len(vals) > 1:
+                    return f
+            v = vals.pop()
+            if tag(v) == "field" and kids(v) and kids(v)[0] == sym.unwrap(sym.subst(oks[0].ret, m)):
+                return f
+            return v
+        finally:
+            self._ft_depth -= 1
 
     def outcomes(self, v):
         """for a workspace call value: list of (path, substituted ret, mapping); None if not expandable"""
